@@ -459,4 +459,24 @@ def run(tier, seed):
                 'once after the own text of the deepest last element of the copy', exhaustive=False)
     run_parallel_sorted(c6, 'bounded.c04', 'check_wrap_tree', tree_cases(rng, nt), chunk=500)
     c6.done()
-    return [c1, c2, c3, c4, c5, c6]
+    from . import c04_sc
+    ns, nw = (2000, 1500) if quick else (60000, 40000)
+    c7 = Clause('self-closing-element-text', 'B',
+                'the element that owns the text is self-closing: ordinary names %r with an explicit `/` and the HTML void '
+                'elements %r with and without `/`; (a) inline text NAME{payload}[/] in the contexts %r, syntaxes %r, '
+                'output.selfClosingStyle %r; (b) wrap text with the self-closing element as X of `X*` / as the deepest last '
+                'element / as `$#` carrier (templates %r) and without implicit repeater (templates %r)'
+                % (c04_sc.PLAIN_NAMES, c04_sc.VOID_NAMES, {k: v[0] for k, v in c04_sc.CONTEXTS.items()}, c04_sc.SYNTAXES,
+                   c04_sc.STYLES, {k: v[0] for k, v in c04_sc.WRAP_IMPLICIT.items()}, {k: v[0] for k, v in c04_sc.WRAP_WHOLE.items()}),
+                '(a) every complete payload of length <= 2 over the alphabet in 6 rotating (head, context) pairs; every head x '
+                'context x %d pool payloads; every syntax x style x head x 3 contexts x 2 payloads; %d random (payload <= 8 chars, '
+                'head, context, syntax, style); (b) every head x template x %d line lists / %d single texts (+ xhtml, jsx, xml once each); '
+                '%d random; output.format off' % (len(c04_sc.PAYLOAD_POOL), ns, len(c04_sc.WRAP_LINES), len(c04_sc.WHOLE_TEXTS), nw),
+                'a case is (name, slash, context, payload, syntax, style) or (kind, template, name, slash, text, syntax); the output '
+                'must be <NAME attrs>TEXT children</NAME> in its context exactly as for an ordinary element (attrs = [^<>]*; '
+                'TEXT = payload read per statement / trimmed line verbatim); a self-closing element without text may end in `/`',
+                exhaustive=False)
+    run_parallel_sorted(c7, 'bounded.c04_sc', 'check_inline', c04_sc.inline_cases(rng, ALPHA, 2, ns), chunk=1000)
+    run_parallel_sorted(c7, 'bounded.c04_sc', 'check_wrap', c04_sc.wrap_cases(rng, nw), chunk=500)
+    c7.done()
+    return [c1, c2, c3, c4, c5, c6, c7]
